@@ -195,6 +195,17 @@ func (c *Ctx) WorkDir() string {
 	if base == "" {
 		base = filepath.Join(Root(), ".work")
 	}
+	// remove scratch directories left behind by runs of this check whose process is gone
+	if olds, _ := filepath.Glob(filepath.Join(base, c.ID+"-*")); len(olds) > 0 {
+		for _, o := range olds {
+			var pid int
+			if _, err := fmt.Sscanf(filepath.Base(o), c.ID+"-%d", &pid); err == nil {
+				if _, err := os.Stat(fmt.Sprintf("/proc/%d", pid)); err != nil {
+					_ = os.RemoveAll(o)
+				}
+			}
+		}
+	}
 	d := filepath.Join(base, fmt.Sprintf("%s-%d", c.ID, os.Getpid()))
 	_ = os.RemoveAll(d)
 	_ = os.MkdirAll(d, 0o755)
